@@ -376,6 +376,8 @@ ck.finish({
                 {"cli": {"inserted": cli[0]["Dirs"], "config": cli[0]["Config"], "observed_n": len(cli[0]["Out"] or [])} if cli else None}],
     "inproc_triples": len(inproc), "inproc_with_directive_and_diagnostics": sum(1 for c in inproc if nontrivial_i(c)),
     "comment_texts": len(parse), "cli_cases": len(cli), "cli_variants": len({c["Variant"] for c in cli}),
+    "cli_cases_with_line_remap_before_directive": sum(1 for c in cli if c.get("Remap") == "before"),
+    "cli_cases_with_line_remap_control": sum(1 for c in cli if c.get("Remap") == "control"),
     "cli_settings": data["Flags"], "in_restricted_class": n_in_class, "model_mismatches": nmis,
     "property_differences_by_key": seen_keys,
 })
